@@ -26,6 +26,7 @@ const (
 	RetVoid                   // func(w, ...)  (writer function without result)      -> W
 	RetHandler                // func(...) http.HandlerFunc { ...; return func(w, r) {...} }   -> W
 	RetWrites                 // func(w, r, ...) (http handler)  -> List Write (the responses written, in order)
+	RetResp                   // func(w, r, ...) (an HTTP handler) -> the response it writes (RetType)
 )
 
 // OutParam: the Go callee writes through a pointer argument; its Lean twin returns the new value.
@@ -64,6 +65,14 @@ type FuncSpec struct {
 	// `W` for a void callee, `W × Go.R T` for an error-returning one - and so does the function itself.
 	Writer    string
 	Effectful []string // callees (Go names) that act on the outside world without being handed the writer
+	// SoftErr: `v, err := f(..); if err != nil && !errors.As(err, &T{}) {..}` for a callee whose T-typed errors travel in its
+	// ok-value (see WrapBoth): T -> Lean projection that yields v from the callee's ok-value
+	SoftErr      map[string]string
+	WrapBothType string            // when set, WrapBoth only applies to `return v, T{..}` of exactly this error type
+	Writers      map[string]string // RetResp: response-writing call (Go callee text) -> Lean constructor of the response
+	DropArgs     []string          // argument expressions that carry no information for the model (w, r, loggers)
+	PlainUpdate  bool              // style: x.F = e  ->  let x := { x with F := e }  (without the type ascription of bindTarget)
+	LoopStyle    string            // "forFirst": early-exit range loops as Go.forFirst (β := result type); default Go.forRange
 }
 
 type tr struct {
@@ -77,6 +86,8 @@ type tr struct {
 	declared    map[string]bool // variables declared in the function (closure) being translated: `=` to anything else is shared state
 	pendingPost string          // write-back of a field out-parameter (see okPattern)
 	loopDepth   int             // inside the body of a generically translated range loop (returns become `some …`)
+	loop        int             // > 0: inside the body of a Go.forFirst loop (returns are wrapped in `some`)
+	rt          string          // Lean result type of the function being translated
 }
 
 func (t *tr) declareFields(fl *ast.FieldList) {
@@ -391,6 +402,56 @@ func (t *tr) expr(e ast.Expr) string {
 		}
 		return t.bad("binary "+x.Op.String(), x)
 	case *ast.CompositeLit:
+		if _, isArr := x.Type.(*ast.ArrayType); x.Type == nil || isArr {
+			// slice literal `[]T{a, b}` / element `{a, b}` of an enclosing slice or map literal  ->  Lean list
+			var vals []string
+			for _, e := range x.Elts {
+				if _, ok := e.(*ast.KeyValueExpr); ok {
+					return t.bad("keyed element in slice literal", x)
+				}
+				vals = append(vals, t.expr(e))
+			}
+			return "[" + strings.Join(vals, ", ") + "]"
+		}
+		_, mapped := typeMap[exprString(x.Type)]
+		if _, renamed := t.spec.Rename[exprString(x.Type)+"{}"]; !renamed && !mapped && len(x.Elts) > 0 {
+			allIdent, allLit := true, true
+			for _, e := range x.Elts {
+				kv, ok := e.(*ast.KeyValueExpr)
+				if !ok {
+					allIdent, allLit = false, false
+					break
+				}
+				if _, ok := kv.Key.(*ast.Ident); !ok {
+					allIdent = false
+				}
+				if _, ok := kv.Key.(*ast.BasicLit); !ok {
+					allLit = false
+				}
+			}
+			if allIdent {
+				// struct literal T{F: v, ..}  ->  Lean structure instance (unnamed fields take the model's defaults)
+				tn := exprString(x.Type)
+				if i := strings.LastIndex(tn, "."); i >= 0 {
+					tn = tn[i+1:]
+				}
+				var fs []string
+				for _, e := range x.Elts {
+					kv := e.(*ast.KeyValueExpr)
+					fs = append(fs, exprString(kv.Key)+" := "+t.expr(kv.Value))
+				}
+				return "({ " + strings.Join(fs, ", ") + " } : " + tn + ")"
+			}
+			if allLit {
+				// map literal M{"k": v, ..}  ->  association list
+				var fs []string
+				for _, e := range x.Elts {
+					kv := e.(*ast.KeyValueExpr)
+					fs = append(fs, "("+t.expr(kv.Key)+", "+t.expr(kv.Value)+")")
+				}
+				return "[" + strings.Join(fs, ", ") + "]"
+			}
+		}
 		tn := exprString(x.Type) + "{}"
 		if len(x.Elts) == 0 {
 			if r, ok := pkgMap[tn]; ok {
@@ -492,6 +553,16 @@ func (t *tr) takePost() string {
 	return p
 }
 
+func (t *tr) dropped(a ast.Expr) bool {
+	s := exprString(a)
+	for _, d := range t.spec.DropArgs {
+		if d == s {
+			return true
+		}
+	}
+	return false
+}
+
 func (t *tr) args(as []ast.Expr) string {
 	return t.argsOf("", as)
 }
@@ -500,7 +571,7 @@ func (t *tr) argsOf(callee string, as []ast.Expr) string {
 	var out []string
 	op, hasOp := outParams[callee]
 	for i, a := range as {
-		if isCtxArg(a) {
+		if isCtxArg(a) || t.dropped(a) {
 			continue
 		}
 		if hasOp && !op.Keep && i == op.Index {
@@ -755,6 +826,9 @@ func (t *tr) ret(r *ast.ReturnStmt) string {
 	if t.loopDepth > 0 {
 		return "(some " + t.ret0(r) + ")"
 	}
+	if t.loop > 0 {
+		return "(some " + t.ret0(r) + ")" // leaving the function from inside a Go.forFirst loop
+	}
 	if t.spec.Writer != "" {
 		switch t.spec.Ret {
 		case RetVoid, RetHandler:
@@ -787,6 +861,9 @@ func (t *tr) ret(r *ast.ReturnStmt) string {
 func (t *tr) ret0(r *ast.ReturnStmt) string {
 	if t.spec.Ret == RetVal && len(r.Results) == 0 && t.spec.RetParam != "" {
 		return t.spec.RetParam
+	}
+	if t.spec.Ret == RetResp {
+		return t.bad("return without a written response", r)
 	}
 	switch t.spec.Ret {
 	case RetWrites:
@@ -857,6 +934,12 @@ func (t *tr) ret0(r *ast.ReturnStmt) string {
 		}
 		// value AND error (e.g. claims, IDTokenHintExpiredError): modelled by the spec'd combinator
 		if t.spec.WrapBoth != "" {
+			if t.spec.WrapBothType != "" {
+				cl, ok := r.Results[1].(*ast.CompositeLit)
+				if !ok || exprString(cl.Type) != t.spec.WrapBothType {
+					return t.bad("value returned with an error that is not a "+t.spec.WrapBothType, r)
+				}
+			}
 			return "(.ok (" + t.spec.WrapBoth + " " + t.expr(r.Results[0]) + " " + t.errValue(r.Results[1]) + "))"
 		}
 		return t.bad("return of value and error", r)
@@ -897,6 +980,41 @@ func typeAssertName(e ast.Expr) string {
 		tn = tn[i+1:]
 	}
 	return tn
+}
+
+// endsWithErrAssign: the block's last statement assigns `err` (and nothing in the block checks it)
+func endsWithErrAssign(b *ast.BlockStmt) bool {
+	if b == nil || len(b.List) == 0 {
+		return false
+	}
+	as, ok := b.List[len(b.List)-1].(*ast.AssignStmt)
+	return ok && len(as.Lhs) >= 1 && exprString(as.Lhs[len(as.Lhs)-1]) == "err"
+}
+
+// softErrCond recognises `err != nil && !errors.As(err, &T{})` for a T listed in the spec's SoftErr
+func (t *tr) softErrCond(e ast.Expr) (string, bool) {
+	b, ok := e.(*ast.BinaryExpr)
+	if !ok || b.Op != token.LAND || !isErrNotNil(b.X) {
+		return "", false
+	}
+	n, ok := b.Y.(*ast.UnaryExpr)
+	if !ok || n.Op != token.NOT {
+		return "", false
+	}
+	c, ok := n.X.(*ast.CallExpr)
+	if !ok || exprString(c.Fun) != "errors.As" || len(c.Args) != 2 || exprString(c.Args[0]) != "err" {
+		return "", false
+	}
+	u, ok := c.Args[1].(*ast.UnaryExpr)
+	if !ok || u.Op != token.AND {
+		return "", false
+	}
+	cl, ok := u.X.(*ast.CompositeLit)
+	if !ok || len(cl.Elts) != 0 {
+		return "", false
+	}
+	proj, ok := t.spec.SoftErr[exprString(cl.Type)]
+	return proj, ok
 }
 
 func isErrNotNil(e ast.Expr) bool {
@@ -999,6 +1117,22 @@ func (t *tr) block(stmts []ast.Stmt, k cont) string {
 			if t.spec.Ret == RetWrites && hasArgW(c) {
 				return "(" + t.writeCall(c) + " ++\n" + t.pad() + rest() + ")"
 			}
+			// HTTP handler: a call that writes the response, followed by `return` (or ending the handler)
+			if ctor, ok := t.spec.Writers[exprString(c.Fun)]; ok && t.spec.Ret == RetResp {
+				leaves := len(stmts) == 1 && k == nil
+				if len(stmts) > 1 {
+					if r, ok := stmts[1].(*ast.ReturnStmt); ok && len(r.Results) == 0 {
+						leaves = true
+					}
+				}
+				if !leaves {
+					return t.bad("response written without leaving the handler", x)
+				}
+				if t.loop > 0 {
+					return t.bad("response written inside a loop", x)
+				}
+				return "(" + ctor + " " + t.args(c.Args) + ")"
+			}
 			// mutator method on a model value: recv.SetX(a)  ->  let recv := recv.SetX a
 			if sel, ok := c.Fun.(*ast.SelectorExpr); ok && strings.HasPrefix(sel.Sel.Name, "Set") {
 				if id, ok := sel.X.(*ast.Ident); ok {
@@ -1059,6 +1193,23 @@ func (t *tr) block(stmts []ast.Stmt, k cont) string {
 				okB := t.ret(ret)
 				t.errInScope = saved
 				return "(match " + t.expr(x.Rhs[0]) + " with\n" + t.pad() + "| .error err => (.error err)\n" + t.pad() + "| .ok " + v + " =>\n" + t.pad() + okB + ")"
+			}
+		}
+		// v, err := f(...)   followed by   if err != nil && !errors.As(err, &T{}) { ... }   (T-typed errors are tolerated)
+		if len(x.Lhs) == 2 && len(x.Rhs) == 1 && exprString(x.Lhs[1]) == "err" && len(stmts) > 1 {
+			if ifs, ok := stmts[1].(*ast.IfStmt); ok && ifs.Init == nil && ifs.Else == nil {
+				if proj, ok := t.softErrCond(ifs.Cond); ok {
+					v := t.ident(exprString(x.Lhs[0]))
+					cont := memo(func() string { return t.block(stmts[2:], k) })
+					t.indent++
+					saved := t.errInScope
+					t.errInScope = true
+					errBranch := t.block(ifs.Body.List, cont)
+					t.errInScope = saved
+					t.indent--
+					return "(match " + t.expr(x.Rhs[0]) + " with\n" + t.pad() + "| .error err => " + errBranch + "\n" + t.pad() + "| .ok " + v + "__soft =>\n" + t.pad() +
+						"let " + v + " := (" + proj + " " + v + "__soft);\n" + t.pad() + cont() + ")"
+				}
 			}
 		}
 		// x, err := f(...)   followed by   if err != nil { ... }
@@ -1144,6 +1295,17 @@ func (t *tr) block(stmts []ast.Stmt, k cont) string {
 			if c, ok := x.Rhs[0].(*ast.CallExpr); ok && exprString(c.Fun) == "new" {
 				return rest() // pure allocation of an out-parameter target
 			}
+			if c, ok := x.Rhs[0].(*ast.CallExpr); ok && strings.HasSuffix(exprString(c.Fun), ".WithContext") {
+				return rest() // r = r.WithContext(ctx): bookkeeping
+			}
+			// field update of a model structure: x.F = e  ->  let x := { x with F := e }
+			if sel, ok := x.Lhs[0].(*ast.SelectorExpr); ok && x.Tok == token.ASSIGN && t.spec.PlainUpdate {
+				if id, ok := sel.X.(*ast.Ident); ok {
+					v := t.ident(id.Name)
+					return "let " + v + " := { " + v + " with " + sel.Sel.Name + " := " + t.expr(x.Rhs[0]) + " };\n" + t.pad() + rest()
+				}
+				return t.bad("assignment to a nested field", x)
+			}
 			if c, ok := x.Rhs[0].(*ast.CallExpr); ok && exprString(c.Fun) == "make" {
 				// make([]T, 0) / make([]T, 0, n): the empty slice; any other length would need its elements
 				if _, isSlice := c.Args[0].(*ast.ArrayType); isSlice && len(c.Args) >= 2 {
@@ -1175,6 +1337,15 @@ func (t *tr) block(stmts []ast.Stmt, k cont) string {
 		// if err := f(...); err != nil { body }
 		if x.Init != nil {
 			as, ok := x.Init.(*ast.AssignStmt)
+			// if v, ok := e.(T); COND { .. }  ->  the two lets of a type assertion, then the plain `if`
+			if ok && len(as.Lhs) == 2 && len(as.Rhs) == 1 {
+				okOnly := x.Else == nil && exprString(x.Cond) == exprString(as.Lhs[1]) // `; ok {` has its own rule below
+				if ta, isTA := as.Rhs[0].(*ast.TypeAssertExpr); isTA && ta.Type != nil && (t.spec.PlainUpdate || !okOnly) {
+					plain := *x
+					plain.Init = nil
+					return t.block(append([]ast.Stmt{as, &plain}, stmts[1:]...), k)
+				}
+			}
 			if ok && len(as.Lhs) == 1 && exprString(as.Lhs[0]) == "err" && isErrNotNil(x.Cond) {
 				t.indent++
 				saved := t.errInScope
@@ -1230,6 +1401,23 @@ func (t *tr) block(stmts []ast.Stmt, k cont) string {
 			}
 			return t.bad("if with init", x)
 		}
+		if eb, isBlock := x.Else.(*ast.BlockStmt); endsWithErrAssign(x.Body) || (isBlock && endsWithErrAssign(eb)) {
+			// a branch ends with `.., err = f(..)` whose check follows the if statement: translate each branch
+			// together with the statements after the `if` (same meaning as inlining the continuation)
+			t.indent++
+			thenB := t.block(append(append([]ast.Stmt{}, x.Body.List...), stmts[1:]...), k)
+			var elseB string
+			switch {
+			case x.Else == nil:
+				elseB = cont()
+			case isBlock:
+				elseB = t.block(append(append([]ast.Stmt{}, eb.List...), stmts[1:]...), k)
+			default:
+				elseB = t.bad("else-if next to an open error assignment", x)
+			}
+			t.indent--
+			return "(if " + t.expr(x.Cond) + " then\n" + t.pad() + "  " + thenB + "\n" + t.pad() + "else\n" + t.pad() + elseB + ")"
+		}
 		t.indent++
 		thenB := t.block(x.Body.List, cont)
 		var elseB string
@@ -1251,6 +1439,18 @@ func (t *tr) block(stmts []ast.Stmt, k cont) string {
 					return "(if (Go.any " + t.expr(x.X) + " (fun " + v + " => " + t.expr(ifs.Cond) + ")) then\n" + t.pad() + "  " + t.ret(ret) + "\n" + t.pad() + "else\n" + t.pad() + rest() + ")"
 				}
 			}
+		}
+		// general form: for _, v := range L { body }, body leaves the loop only by `return`:
+		//   match Go.forFirst L (fun v => body-or-none) with | some r => r | none => rest
+		if t.spec.LoopStyle == "forFirst" && x.Value != nil && (x.Key == nil || exprString(x.Key) == "_") {
+			v := exprString(x.Value)
+			t.loop++
+			t.indent++
+			body := t.block(x.Body.List, func() string { return "none" })
+			t.indent--
+			t.loop--
+			return "(match (Go.forFirst (β := " + t.rt + ") " + t.expr(x.X) + " (fun " + v + " =>\n" + t.pad() + "  " + body + ")) with\n" + t.pad() +
+				"| some r__ => r__\n" + t.pad() + "| none =>\n" + t.pad() + rest() + ")"
 		}
 		// general form: for _, v := range L { BODY }  where BODY only returns or falls through:
 		//   match Go.forRange L (fun v => BODY') with | some r => r | none => rest      (BODY' : Option result)
@@ -1380,19 +1580,6 @@ func (t *tr) switchStmt(s *ast.SwitchStmt, cont cont) string {
 
 // translateFunc renders one Lean definition.
 func translateFunc(fset *token.FileSet, fd *ast.FuncDecl, spec *FuncSpec) (string, []string) {
-	t := &tr{spec: spec, fset: fset, indent: 1, fresh: map[string]bool{}, declared: map[string]bool{}}
-	t.declareFields(fd.Recv)
-	t.declareFields(fd.Type.Params)
-	t.declareFields(fd.Type.Results)
-	var k cont
-	if spec.Ret == RetVoid && spec.Writer != "" {
-		w := spec.Writer
-		k = func() string { return w } // a void writer function may fall off its end
-	}
-	if spec.Ret == RetWrites {
-		k = func() string { return "[]" } // a handler may fall off its end
-	}
-	body := t.block(fd.Body.List, k)
 	var rt string
 	switch spec.Ret {
 	case RetWrites:
@@ -1417,6 +1604,19 @@ func translateFunc(fset *token.FileSet, fd *ast.FuncDecl, spec *FuncSpec) (strin
 			rt = "(World × " + rt + ")"
 		}
 	}
+	t := &tr{spec: spec, fset: fset, indent: 1, fresh: map[string]bool{}, declared: map[string]bool{}, rt: "(" + rt + ")"}
+	t.declareFields(fd.Recv)
+	t.declareFields(fd.Type.Params)
+	t.declareFields(fd.Type.Results)
+	var k cont
+	if spec.Ret == RetVoid && spec.Writer != "" {
+		w := spec.Writer
+		k = func() string { return w } // a void writer function may fall off its end
+	}
+	if spec.Ret == RetWrites {
+		k = func() string { return "[]" } // a handler may fall off its end
+	}
+	body := t.block(fd.Body.List, k)
 	pos := fset.Position(fd.Pos())
 	var b strings.Builder
 	fmt.Fprintf(&b, "/-- translated from %s:%d `%s` -/\n", relPath(pos.Filename), pos.Line, spec.Name)
